@@ -307,7 +307,7 @@ class SimCluster(object):
 
     # ---- fault rules -------------------------------------------------------------------------
     def add_rule(self, rule):
-        """rule: {"api": key, "node": n|None, "nth": k, "act": str, ...}; nth counts matching requests."""
+        """rule: {"api": key, "node": n|None, "nth": k, "act": str, ...}; nth counts matching requests (from "from_t" on when given)."""
         r = dict(rule)
         r["_seen"] = 0
         r["_id"] = len(self.rules)
@@ -322,6 +322,8 @@ class SimCluster(object):
                 continue
             if r.get("group") is not None and body.get("group") != r["group"]:
                 continue
+            if r.get("from_t") is not None and self.sim.now < r["from_t"]:
+                continue  # the rule starts counting at that instant
             k = r["_seen"]
             r["_seen"] += 1
             lo = r.get("nth", 0)
